@@ -220,10 +220,10 @@ Goal forall (uc : unicode) (cfg : sw_config) (a : ralias),
       exists docs name esc, d = SWAlias docs name esc (agenerics a) (c05_erase Swift (Proofs.C05_Back.c05_sw_cfg cfg) (agenerics a) (atype a)).
 Proof. exact Props.C05.C05_site_swift_alias. Qed.
 Print Assumptions Props.C05.C05_site_swift_alias.
-Goal forall (uc : unicode) (cfg : sw_config) (sh : eshared) (t : rtype) (vsh : vshared) (st : sw_state) (v : sw_variant) (st' : sw_state),
+Goal forall (uc : unicode) (cfg : sw_config) (sh : eshared) (t : rtype) (vsh : vshared),
     dom_C05 t = true -> known_C05 Swift (Proofs.C05_Back.c05_sw_cfg cfg) (egenerics sh) t = None ->
-    sw_variant_of uc cfg sh (VTuple t vsh) st = Ok (v, st') ->
-    exists esc opt, swv_payload v = SWPTuple (c05_erase Swift (Proofs.C05_Back.c05_sw_cfg cfg) (egenerics sh) t) esc opt.
+    forall st, exists v st', sw_variant_of uc cfg sh (VTuple t vsh) st = Ok (v, st') /\
+      exists esc opt, swv_payload v = SWPTuple (c05_erase Swift (Proofs.C05_Back.c05_sw_cfg cfg) (egenerics sh) t) esc opt.
 Proof. exact Props.C05.C05_site_swift_payload. Qed.
 Print Assumptions Props.C05.C05_site_swift_payload.
 Goal forall (uc : unicode) (cfg : sw_config) (sh : eshared) (name vo : str) (fields : list rfield),
